@@ -272,6 +272,18 @@ def q2dedup(ctx):
         out.append(Inst("Q2DEDUP", "deliver-unguarded" if not ok else "deliver-guarded", ok and bool(adds) and bool(rems), e.site(), fact,
                         "QoS 2 re-delivery before PUBREL must not be yielded again: needs add/test/remove state"))
         if ok:
+            # an identifier is recorded once: only on the edge on which the membership test found it absent. A second
+            # entry for a re-delivery outlives a release that removes one entry (`position` + `remove`), and the next
+            # message that reuses the identifier is taken for a re-delivery
+            for a_ in adds:
+                guarded = False
+                for (d, s_) in hp.control_dep_closure(a_.inner_bb if not a_.via else a_.bb):
+                    atoms, si = _decision_atoms(hp, d)
+                    if {x[2] for x in atoms if x[0] == "field" and x[1] == "client::context::Session"} & guard_fields:
+                        guarded = True
+                out.append(Inst("Q2DEDUP", "add-only-when-absent", guarded, a_.site(),
+                                "the identifier is recorded %s" % ("on an edge of the membership test only" if guarded else "whether or not it is already recorded (no test of Session.%s decides the push)" % sorted(guard_fields)),
+                                "one entry per unreleased identifier"))
             # the release removes exactly the identifier of the PUBREL, whatever its position
             for r in rems:
                 keyed = r.detail["how"] in ("keyed", "retain")
